@@ -32,7 +32,8 @@ TSingle == /\ E.ev = "Req" /\ ~skipping /\ sent = <<>>
            /\ LET c == Classify(E.method, E.fields) o == E.out IN
               IF o.k \in {"Panic", "Hang"} THEN Fail(<<o.k>>)
               ELSE IF c.k = "err"
-                   THEN IF (o.k = "err" /\ o.kind \in c.errs) \/ (c.free /\ o.k = "ok")
+                   THEN IF (o.k = "err" /\ o.kind \in c.errs)
+                           \/ (c.free /\ o.k = "ok" /\ LET c2 == ClassifyLenient(E.method, E.fields) IN c2.k = "ok" /\ Mismatch(o, c2) = <<>>)
                         THEN nvalid' = nvalid + 1 /\ Keep /\ UNCHANGED <<sent, k, phase>>
                         ELSE Fail(<<"RejectNotIgnore", "expected", c.errs, "got", o.k, o.kind>>)
               ELSE IF o.k # "ok" THEN Fail(<<"Rejected valid framing", o.kind>>)
